@@ -293,7 +293,7 @@ section Examples
 private def exOps : List (Op Nat) :=
   [.push ⟨1, 0⟩ 7, .push ⟨2, 0⟩ 7, .push ⟨3, 0⟩ 2, .push ⟨2, 5⟩ 1, .changePriority 3 7, .changePriorityBy 1 (· - 3),
    .pushIncrease ⟨4, 0⟩ 6, .pushDecrease ⟨4, 0⟩ 5, .pushIncrease ⟨4, 0⟩ 9, .remove 1, .getMut 2 (fun it => ⟨it.key, 8⟩),
-   .extend 0 #[(⟨5, 0⟩, 9), (⟨6, 0⟩, 3)], .append #[(⟨7, 0⟩, 4), (⟨5, 1⟩, 0)],
+   .extend 0 #[(⟨5, 0⟩, 9), (⟨6, 0⟩, 3)], .append (Store.fromVec #[(⟨7, 0⟩, 4), (⟨5, 1⟩, 0)]),
    .iterMut false [(.nextBack, ⟨some 0, none⟩), (.next, ⟨none, some 1⟩), (.len, ⟨none, none⟩), (.next, ⟨some 12, none⟩)],
    .retainMut (fun it p => (p != 3, it, p)), .popFrontIf (fun it p => (p == 0, it, p + 1)),
    .popBackIf (fun it p => (p == 11, it, p)), .capacityOp, .peekFrontMut (fun it => ⟨it.key, 99⟩),
@@ -302,7 +302,7 @@ private def exOps : List (Op Nat) :=
 example : (∀ op ∈ exOps, op.Legal) ∧ (∀ op ∈ exOps, op.isLeak = false) := by
   constructor <;> intro op h <;> simp only [exOps, List.mem_cons, List.not_mem_nil, or_false] at h <;>
     rcases h with h | h | h | h | h | h | h | h | h | h | h | h | h | h | h | h | h | h | h | h | h | h | h <;>
-    subst h <;> first | exact trivial | rfl | (intro _; rfl) | (intro _ _; rfl)
+    subst h <;> first | exact trivial | rfl | (intro _; rfl) | (intro _ _; rfl) | (show Store.WF _; decide +kernel) | (show _ ∧ _ < capLimit; decide +kernel)
 
 -- the theorem applies to the concrete history …
 example : ∃ q' outs, run (Q.new .dpq) exOps = .ok (q', outs) ∧ outs.length = 23 ∧ QInv q' :=
@@ -310,7 +310,7 @@ example : ∃ q' outs, run (Q.new .dpq) exOps = .ok (q', outs) ∧ outs.length =
     (by
       intro op h; simp only [exOps, List.mem_cons, List.not_mem_nil, or_false] at h
       rcases h with h | h | h | h | h | h | h | h | h | h | h | h | h | h | h | h | h | h | h | h | h | h | h <;>
-        subst h <;> first | exact trivial | (intro _; rfl) | (intro _ _; rfl))
+        subst h <;> first | exact trivial | (intro _; rfl) | (intro _ _; rfl) | (show Store.WF _; decide +kernel) | (show _ ∧ _ < capLimit; decide +kernel))
     (by
       intro op h; simp only [exOps, List.mem_cons, List.not_mem_nil, or_false] at h
       rcases h with h | h | h | h | h | h | h | h | h | h | h | h | h | h | h | h | h | h | h | h | h | h | h <;>
